@@ -257,8 +257,12 @@ class Check:
         ev = {"property_id": self.prop, "tier": self.tier, "seed": self.seed, "level": level_out,
               "coverage": cov, "assumptions": BASE_ASSUMPTIONS + list(getattr(mod, "ASSUMPTIONS", [])),
               "wall_s": round(wall, 2), "violations": len(self.violations)}
-        os.makedirs(os.path.join(VERIF, "evidence"), exist_ok=True)
-        with open(os.path.join(VERIF, "evidence", self.prop + ".json"), "w") as f:
+        # evidence/<id>.json describes the tree under /repo; a run against another tree (selftest mutants, seeds:
+        # PYVC_EVIDENCE_DIR is set by selftest/run.py) must not overwrite it
+        evdir = os.environ.get("PYVC_EVIDENCE_DIR") or (
+            os.path.join(VERIF, "evidence") if os.path.realpath(REPO) == "/repo" else os.path.join(VERIF, "out", "evidence_other_tree"))
+        os.makedirs(evdir, exist_ok=True)
+        with open(os.path.join(evdir, self.prop + ".json"), "w") as f:
             json.dump(ev, f, indent=1, default=str)
         self.say("%s tier=%s: %d/%d obligations discharged (%d/%d instances), %d paths, solver %.1fs, wall %.1fs" % (
             self.prop, self.tier, n_proved, n_cl, inst_proved, inst, eng.paths_explored, solver_s, wall))
